@@ -58,10 +58,11 @@ type env struct {
 	st    *Store
 	chain *vh.Chain
 	// model: heights appended and not deleted
-	P        map[uint64]bool
-	anchored bool // a chain exists: something was appended since creation / the last whole-chain delete
-	started  bool
-	coarse   bool // collapse the sub-clauses of "still there" into one signature
+	P         map[uint64]bool
+	anchored  bool // a chain exists: something was appended since creation / the last whole-chain delete
+	started   bool
+	coarse    bool   // collapse the sub-clauses of "still there" into one signature
+	newDuring uint64 // height appended from inside an OnDelete handler during the judged deletion (0 = none)
 }
 
 func newChain(n int) *vh.Chain {
